@@ -17,7 +17,6 @@ import (
 	"strconv"
 	"strings"
 	"sync"
-	"sync/atomic"
 	"syscall"
 	"time"
 
@@ -294,6 +293,13 @@ type inst struct {
 	closedFD [3]bool
 	fdDirty  bool // an fd_renumber succeeded: the fd model is off
 	exited   bool
+	blocked  bool // a call never returned: the instance still runs it, hands off
+}
+
+func (in *inst) close() {
+	if !in.blocked {
+		in.mod.Close(in.p.ctx)
+	}
 }
 
 func (p *procEnv) newInst(e *engineEnv, label string, second ...bool) (*inst, error) {
@@ -389,7 +395,7 @@ func (in *inst) run(cc *callCtx, k int, c *wcall) rec {
 	case blocked:
 		// Differential watchdog (see callGuarded): under the default configuration
 		// nothing can block (stdin is empty, sleeping is faked, no sockets).
-		in.exited = true
+		in.exited, in.blocked = true, true
 		r.Ret = "blocked"
 		cc.find(fnTag(c)+":blocks-under-default-config",
 			fmt.Sprintf("%s did not return although %d control calls on a fresh instance of the same engine completed meanwhile", c.Fn, controlRounds),
@@ -835,6 +841,8 @@ func (p *procEnv) runScript(sc *scriptCase) *scriptOut {
 		return so
 	}
 	cc := &callCtx{so: so, scan: true, scanned: map[[32]byte]bool{}}
+	slow0 := p.slowCalls
+	defer func() { so.SlowCalls = p.slowCalls - slow0 }()
 	if sc.ID%64 == 0 {
 		so.Host = p.host
 	}
@@ -875,7 +883,7 @@ func (p *procEnv) runScript(sc *scriptCase) *scriptOut {
 		}
 		traces[e.name+"/A"] = ta
 		if closeFirst {
-			a.mod.Close(p.ctx)
+			a.close()
 		}
 		b, err1 := p.newInst(e, e.name+"/B")
 		c, err2 := p.newInst(e, e.name+"/C", secondRT)
@@ -898,10 +906,10 @@ func (p *procEnv) runScript(sc *scriptCase) *scriptOut {
 		traces[e.name+"/B"] = tb
 		traces[e.name+"/C"] = tc
 		if !closeFirst {
-			a.mod.Close(p.ctx)
+			a.close()
 		}
-		b.mod.Close(p.ctx)
-		c.mod.Close(p.ctx)
+		b.close()
+		c.close()
 	}
 	ref = traces["interpreter/A"]
 	so.Traces = len(traces)
@@ -964,13 +972,10 @@ func (p *procEnv) runScript(sc *scriptCase) *scriptOut {
 
 // sleepProbe: "no real sleep". A poll_oneoff with a one hour relative clock
 // timeout (alone, and together with a stdin read subscription) must return
-// without sleeping. Differential watchdog: the subject runs in its own
-// goroutine and instance; the control (the same call with timeout 0 on another
-// instance) is repeated up to 4000 paced rounds. The verdict is logical: the
-// subject did not complete although the control completed 4000 times.
+// without sleeping; the differential watchdog of callGuarded decides.
 func (p *procEnv) sleepProbe(sc *scriptCase) *scriptOut {
 	so := &scriptOut{ID: sc.ID, Probe: map[string]any{}}
-	cc := &callCtx{so: so}
+	cc := &callCtx{so: so, scanned: map[[32]byte]bool{}}
 	mk := func(withStdin bool, timeout uint64) wcall {
 		n := 1
 		if withStdin {
@@ -985,51 +990,30 @@ func (p *procEnv) sleepProbe(sc *scriptCase) *scriptOut {
 			binary.LittleEndian.PutUint64(sub[48:], 0x2222)
 			sub[48+8] = 1
 		}
-		return wcall{Fn: "poll_oneoff", Args: []uint64{1024, 2048, uint64(n), 4096}, In: []memWrite{{Off: 1024, Data: sub}},
+		return wcall{Fn: "poll_oneoff", Note: "1h-clock-timeout", Args: []uint64{1024, 2048, uint64(n), 4096}, In: []memWrite{{Off: 1024, Data: sub}},
 			Out: []region{{Off: 2048, Len: uint32(32 * n)}, {Off: 4096, Len: 4}}, FD: -1, Valid: true}
 	}
 	const hour = uint64(3600) * 1e9
 	for _, e := range p.engines {
 		for _, withStdin := range []bool{false, true} {
 			name := fmt.Sprintf("%s stdin-sub=%v", e.name, withStdin)
-			subj, err1 := p.newInst(e, "subject")
-			ctl, err2 := p.newInst(e, "control")
-			if err1 != nil || err2 != nil {
-				cc.find("harness:instantiate", fmt.Sprint(err1, err2), -1, e.name, nil, nil)
+			subj, err := p.newInst(e, "sleep-probe "+name)
+			if err != nil {
+				cc.find("harness:instantiate", err.Error(), -1, e.name, nil, nil)
 				continue
 			}
-			var done atomic.Bool
-			var sr rec
-			go func() {
-				c := mk(withStdin, hour)
-				sr = subj.run(cc2(), 0, &c)
-				done.Store(true)
-			}()
-			rounds := 0
-			for rounds < 4000 && !done.Load() {
-				c := mk(withStdin, 0)
-				if r := ctl.run(cc2(), 0, &c); r.Ret != "errno=0" {
-					cc.find("harness:sleep-probe-control", "control poll_oneoff returned "+r.Ret, -1, name, r, nil)
-					break
-				}
-				rounds++
-				time.Sleep(time.Millisecond)
+			c := mk(withStdin, hour)
+			r := subj.run(cc, 0, &c)
+			so.Probe[name] = r.Ret
+			so.Traces++
+			if r.Ret != "errno=0" && r.Ret != "blocked" {
+				cc.find("harness:sleep-probe", "poll_oneoff returned "+r.Ret, -1, name, r, nil)
 			}
-			so.Probe[name] = map[string]any{"control_rounds_until_subject_returned": rounds, "returned": done.Load()}
-			if !done.Load() {
-				cc.find("poll_oneoff:clock-timeout-really-sleeps", fmt.Sprintf("%s: poll_oneoff with a 1h relative clock timeout did not return while %d control calls (timeout 0) on another instance completed", name, rounds), 0, name, nil, "returns without sleeping (fake nanosleep)")
-				return so // the subject goroutine stays blocked; do not touch its instance
+			subj.close()
+			if p.blockedCalls >= 2 {
+				return so
 			}
-			if sr.Ret != "errno=0" {
-				cc.find("harness:sleep-probe-subject", "subject poll_oneoff returned "+sr.Ret, -1, name, sr, nil)
-			}
-			subj.mod.Close(p.ctx)
-			ctl.mod.Close(p.ctx)
 		}
 	}
-	so.Traces = len(so.Probe)
 	return so
 }
-
-// cc2 is a throw-away context for calls whose findings are not collected.
-func cc2() *callCtx { return &callCtx{so: &scriptOut{}, scanned: map[[32]byte]bool{}} }
